@@ -13,6 +13,24 @@ CLAIMED = {
         technique=TECH + ": entropy/clock seam (LD_PRELOAD getrandom + clock_gettime), seeded incarnation histories, byte-equality oracle",
         design="DESIGN.md §4 C06",
     ),
+    "C10": dict(
+        text="The evaluation schedule of svgdx's retry work-list is the sibling order of the document. Each generated reference DAG (22 relative-positioning kinds over 9 absolute anchor kinds) is executed under every sibling order - exhaustively all n! for n <= 5, identity + reversal + 62 seeded orders for n in 6..8 - and every element's geometry must equal its geometry under the forward-reference-free order; unsatisfiable graphs (unknown id, 2-/3-cycles, self reference, target without bounding box) must fail under every order. Exploration over DAG shapes; exhaustive over schedules for small n.",
+        note="Generated elements are side-effect free (no '^', no <var>, no random functions). Numeric tolerance 2e-3. Root viewBox/width/height not compared (C08 is not applicable). The verif hook only counts retries (non-triviality); the verdict is on output bytes.",
+        technique=TECH + ": schedule = sibling order of the retry work-list, fault = unresolved forward reference; all n! schedules for n<=5, seeded sampling above; geometry-equality oracle against the fault-free schedule",
+        design="DESIGN.md §4 C10",
+    ),
+    "C15": dict(
+        text="Scoped programs (g / reuse-of-specs-template / loop / if / var with parallel assignment / probes) are rendered twice: 'back' (anchors first: fault-free) and 'fwd' (anchors last: forward references inside scoped constructs fail between scope push and pop and are re-evaluated by the retry work-list). Probe outputs of both variants must equal an executable lexical-scoping reference model. Seeded exploration over program shapes and fault placements.",
+        note="Only g and reuse introduce scopes (loop/if bodies run in the enclosing scope, documented behaviour). Programs whose stored values would contain '$' leave the model and are skipped (counted). Two genuine, unrepaired design-level defects are listed in known_findings.json under their own program classes.",
+        technique=TECH + ": fault = forward reference inside a scoped construct (forces re-evaluation), fault-free vs faulted rendering of one program, executable reference model of lexical scoping as oracle",
+        design="DESIGN.md §4 C15",
+    ),
+    "C17": dict(
+        text="Parametric documents with limit L (API and <config>): nesting depth L-1..L+2, flat amplification (L..4L siblings of 19 element kinds at constant depth), loops of every kind (count/while/until/for/nested/retried/self-mutating) with L-1..L+3 passes, variable values of length L-1..L+5, reuse recursion (self, fan-out 2, mutual, bounded). Two-sided verdict from a reference counter model; on acceptance the number of rendered elements is checked (never truncated). The depth counter and retry protocol are the state under watch (hook probes).",
+        note="Nesting depth = XML element levels, root = 1. For wrapper/leaf kinds whose internal accounting may add a constant, acceptance is asserted only at depth <= L-2; pure g chains are asserted exactly.",
+        technique=TECH + ": limit counters and the retry protocol as the simulated state machine; parametric boundary workloads; reference counter model as oracle",
+        design="DESIGN.md §4 C17",
+    ),
 }
 
 NOT_APPLICABLE = {
@@ -34,10 +52,7 @@ NOT_APPLICABLE = {
 PENDING = {
     "C01": "check under construction in this session (planned: claimed, see DESIGN.md §4); not claimed until the engine is committed",
     "C07": "check under construction in this session (planned: claimed, see DESIGN.md §4); not claimed until the engine is committed",
-    "C10": "check under construction in this session (planned: claimed, see DESIGN.md §4); not claimed until the engine is committed",
     "C14": "check under construction in this session (planned: claimed, see DESIGN.md §4); not claimed until the engine is committed",
-    "C15": "check under construction in this session (planned: claimed, see DESIGN.md §4); not claimed until the engine is committed",
-    "C17": "check under construction in this session (planned: claimed, see DESIGN.md §4); not claimed until the engine is committed",
 }
 
 def main():
